@@ -8,6 +8,10 @@ Ops:
   trace <kind> <n> <fault> <init> <ret> <hook>=<snap>…   → ok <#events> | mismatch …
   crashat <kind> <n> <init> <k>                          → <snap> | done
   safe <n> <snap>                                        → true | false
+  fromcache <n> <snap>                                   → avail | err   (FetchFromCache in a quiescent state)
+  trace2 <n> <reader-kind> <init> <role>:<hook>=<snap>… <role>:ret:<r>=<snap>…
+        a two-thread history under a forced schedule (W = a Fetch of process 0, R = the reader
+        of process 1; only the named thread moves between two events)   → ok <#events> | mismatch …
 -/
 namespace CueVerif.Driver.C16
 open CueVerif CueVerif.Driver CueVerif.ModCache
@@ -125,6 +129,69 @@ def checkEvents (n : Nat) : Nat → List (String × VSt) → List String → Str
     else if !(safeB n s) then s!"unsafe model state at {k}: {m}"
     else checkEvents n (k + 1) r ws
 
+/-- the reader thread of two-thread histories (another process than `me`) -/
+def rdr : Tid := (1, 0)
+
+/-- advance thread `t` alone until it passes a hook point (`some h`) or has returned (`none`) -/
+def advance (n : Nat) (t : Tid) : Nat → VSt → List Ev → Except String (Option String × VSt × List Ev)
+  | 0, _, _ => .error "model-out-of-fuel"
+  | fuel + 1, s, evs =>
+    match s.pc t with
+    | .idle => .ok (none, s, evs)
+    | _ =>
+      match next n s t (choiceFor s t .none false) with
+      | none => .error "model-blocked"
+      | some (s', o) =>
+        match o.hook with
+        | some h => .ok (some h, s', evs ++ [o.ev])
+        | none => advance n t fuel s' (evs ++ [o.ev])
+
+structure T2 where
+  s : VSt
+  wStarted : Bool := false
+  rStarted : Bool := false
+  wEvs : List Ev := []
+  rEvs : List Ev := []
+
+def splitAt1 (c : Char) (s : String) : Option (String × String) :=
+  match s.splitOn (String.singleton c) with
+  | a :: b :: rest => some (a, (String.singleton c).intercalate (b :: rest))
+  | _ => none
+
+def checkTrace2 (n : Nat) (rk : Start) : Nat → T2 → List String → String
+  | k, _, [] => s!"ok {k}"
+  | k, st, w :: ws =>
+    match splitAt1 ':' w with
+    | none => "bad-op"
+    | some (role, rest) =>
+      match splitAt1 '=' rest with
+      | none => "bad-op"
+      | some (name, snap) =>
+        let isW := role == "W"
+        let t := if isW then me else rdr
+        let started := if isW then st.wStarted else st.rStarted
+        -- the thread makes its call when its first event is due
+        let s0? : Option VSt :=
+          if started then some st.s
+          else (next n st.s t { start := if isW then .fetch else rk }).map (·.1)
+        match s0? with
+        | none => s!"mismatch at {k}: the model cannot start {role}"
+        | some s0 =>
+          let evs0 := if isW then st.wEvs else st.rEvs
+          match advance n t (fuelFor n s0 + 2 * n + 80) s0 evs0 with
+          | .error e => s!"mismatch at {k}: {e} (impl: {w})"
+          | .ok (h?, s1, evs1) =>
+            let st' : T2 := if isW then { st with s := s1, wStarted := true, wEvs := evs1 }
+                            else { st with s := s1, rStarted := true, rEvs := evs1 }
+            let got := match h? with
+              | some h => s!"{role}:{h}={showSnap s1}"
+              | none => s!"{role}:ret:{retOf evs1}={showSnap s1}"
+            if got != w then s!"mismatch at {k}: model={got} impl={w}"
+            else if !(safeB n s1) then s!"unsafe model state at {k}: {got}"
+            else
+              let _ := name; let _ := snap
+              checkTrace2 n rk (k + 1) st' ws
+
 def handle (ws : List String) : String :=
   match ws with
   | "trace" :: kind :: n :: fault :: init :: ret :: evs =>
@@ -144,6 +211,17 @@ def handle (ws : List String) : String :=
       | some (_, s) => showSnap (crash s me.1)
       | none => "done"
     | _, _, _, _ => "bad-op"
+  | "trace2" :: n :: rk :: init :: evs =>
+    match n.toNat?, parseKind rk, parseSnap init with
+    | some n, some rk, some s0 => checkTrace2 n rk 0 { s := s0 } evs
+    | _, _, _ => "bad-op"
+  | ["fromcache", n, snap] =>
+    -- what FetchFromCache must answer in the quiescent state `snap`
+    match n.toNat?, parseSnap snap with
+    | some n, some s0 =>
+      let r := runTrace n .fetchFromCache "none" s0
+      if r.blocked then "model-blocked" else retOf r.evs
+    | _, _ => "bad-op"
   | ["safe", n, snap] =>
     match n.toNat?, parseSnap snap with
     | some n, some s => boolStr (safeB n s)
